@@ -132,6 +132,10 @@ func (c *connection) decodeTrailers(r io.Reader, l, maxHeaderBytes uint64) (http
 
 	b := make([]byte, l)
 	if _, err := io.ReadFull(r, b); err != nil {
+		if err == io.EOF {
+			// the stream ended right after the frame header: a truncated frame
+			err = io.ErrUnexpectedEOF
+		}
 		return nil, err
 	}
 	fields, err := c.decoder.DecodeFull(b)
